@@ -204,7 +204,13 @@ func (s *scheduler) describeBlocked() string {
 
 // spawn starts an interpreted goroutine.
 func (s *scheduler) spawn(fn value, args []value, pos string) {
-	if len(s.gs) > s.i.cfg.MaxGoroutines {
+	live := 0
+	for _, g := range s.gs {
+		if g.state != gDone {
+			live++
+		}
+	}
+	if live > s.i.cfg.MaxGoroutines {
 		s.i.incomplete("goroutine budget exceeded")
 	}
 	g := &goroutine{id: len(s.gs), wake: make(chan struct{}, 1), state: gRunnable, createdAt: pos}
